@@ -453,7 +453,7 @@ var c07Shapes = []string{
 	"agg_op_lit", "agg_op_lit", "agg_op_lit",
 	"lit_op_agg", "lit_op_agg",
 	"agg_op_agg", "agg_op_agg",
-	"paren_agg_op_lit", "paren_agg",
+	"paren_agg_op_lit", "paren_agg", "agg_op_paren_lit",
 	"paren_agg_op_agg_op_lit", "paren_agg_op_agg_op_lit",
 	"agg_op_lit_op_lit", "agg_op_lit_op_lit",
 	"lit_op_agg_op_lit",
@@ -483,6 +483,11 @@ func c07GenExpr(r *rand.Rand, shape string) *c07Expr {
 		return c07Bin(op, c07GenPlainAgg(r), c07GenPlainAgg(r))
 	case "paren_agg":
 		return c07Paren(c07GenPlainAgg(r))
+	case "agg_op_paren_lit": // sum(v) * (2), sum(v) / (2 + 2): the item ends with the parenthesis of a literal operand
+		if r.Intn(2) == 0 {
+			return c07Bin(op, c07GenPlainAgg(r), c07Paren(lit))
+		}
+		return c07Bin(op, c07GenPlainAgg(r), c07Paren(c07Bin(pick(r, []string{"+", "*"}), lit, c07Lit(pick(r, []string{"2", "5"})))))
 	case "paren_agg_op_lit":
 		return c07Bin(op, c07Paren(c07GenPlainAgg(r)), lit)
 	case "paren_agg_op_agg_op_lit":
